@@ -106,3 +106,14 @@ Print Assumptions C06_out_of_range_in_shadow_test_refuses.
 
 Example C06_gate_open_arrays_example : produces_binary (nanoc {| front_ok := true; later_ok := true |} 60 sparr_good []).
 Proof. vm_compute. exact I. Qed.
+
+(* strings as computed values: the gate opens on the string program inside names_apart ... *)
+Example C06_gate_open_strings_example : produces_binary (nanoc {| front_ok := true; later_ok := true |} 80 spstr_good []).
+Proof. vm_compute. exact I. Qed.
+(* ... and refuses a correct program outside clause (e): (str_substring v1 3 2) with v1 = "abc" is "" in the language, void
+   in the evaluator (finding c03:builtin:str_substring:start-at-or-past-the-end-is-void-in-the-evaluator) *)
+Theorem C06_gate_refuses_substring_past_the_end :
+  refutes spstr_past_end 80 /\
+  nanoc {| front_ok := true; later_ok := true |} 80 spstr_past_end [] = NExit 1 false [RTesting 4%N [] false; RFailed 4%N 1; RShadowTestsFailed] [2%N].
+Proof. exact gate_refuses_substring_past_end. Qed.
+Print Assumptions C06_gate_refuses_substring_past_the_end.
